@@ -23,6 +23,29 @@ func installDefaultExterns(ex *Exec) {
 	}
 	e["realloc"] = externRealloc
 	e["free"] = func(ex *Exec, st *State, in *llread.Inst, a []Val) []*State {
+		null, nonnull := ex.isNull(st, a[0])
+		if !null && !nonnull {
+			// decide nullness with the solver; both outcomes possible: split the path
+			c := ex.C
+			isZ := c.Eq(a[0].E, c.BV(64, 0))
+			rz, _, _ := ex.check(st, []*smt.Expr{isZ}, nil)
+			rn, _, _ := ex.check(st, []*smt.Expr{c.Not(isZ)}, nil)
+			switch {
+			case rz == smt.Unknown || rn == smt.Unknown:
+				ex.abort(st, "nullness of a freed pointer inconclusive")
+				return []*State{st}
+			case rz == smt.Sat && rn == smt.Sat:
+				s2 := ex.fork(st)
+				st.Assume(isZ)
+				s2.Assume(c.Not(isZ))
+				ex.freePtr(s2, a[0], "free")
+				return []*State{st, s2}
+			case rz == smt.Sat:
+				return []*State{st}
+			default:
+				st.Assume(c.Not(isZ))
+			}
+		}
 		ex.freePtr(st, a[0], "free")
 		return []*State{st}
 	}
@@ -173,10 +196,7 @@ func (ex *Exec) freePtr(st *State, p Val, what string) bool {
 	if null {
 		return true
 	}
-	if !nonnull {
-		ex.abort(st, what+" of pointer with unknown nullness")
-		return false
-	}
+	_ = nonnull
 	o, off, ok := ex.resolve(st, p, what)
 	if !ok {
 		return false
